@@ -3,6 +3,7 @@ package rules
 import (
 	"fmt"
 	"go/types"
+	"regexp"
 	"sort"
 	"strings"
 
@@ -61,7 +62,7 @@ func runPromFanout(c *core.Ctx) {
 			if sc == nil || sc.Name() != hook || sc.Pkg != P.Prom {
 				continue
 			}
-			rp := an.PathOf(call.Call.Args[0])
+			rp := promPath(call.Call.Args[0])
 			if !strings.HasPrefix(rp, "recv.") {
 				continue
 			}
@@ -70,9 +71,9 @@ func runPromFanout(c *core.Ctx) {
 			// same ctx / msg: arguments are this hook's own parameters in order; for hooks
 			// after Start the context is the one carrying the request id
 			for i, a := range call.Call.Args[1:] {
-				ap := an.PathOf(a)
+				ap := promPath(a)
 				if i == 0 && hook == "ServeNostrStart" {
-					if !strings.Contains(ap, "setRequestID(") {
+					if !strings.Contains(ap, "SETREQID(") {
 						wrongArgs = append(wrongArgs, rp+": context without the request id")
 					}
 					continue
@@ -115,7 +116,7 @@ func runPromGauge(c *core.Ctx) {
 			c.CountFuncs(2)
 			uncond := func(fn *ssa.Function, m string) bool {
 				cs := gaugeCalls(fn, m)
-				return len(cs) == 1 && cs[0].Block() == fn.Blocks[0] && an.PathOf(cs[0].Call.Value) == "recv.c"
+				return len(cs) == 1 && cs[0].Block() == fn.Blocks[0] && promPath(cs[0].Call.Value) == "recv.c"
 			}
 			okOnly := len(gaugeCalls(st, "Dec")) == 0 && len(gaugeCalls(en, "Inc")) == 0
 			c.Check(uncond(st, "Inc") && uncond(en, "Dec") && okOnly, nil, "connectionCounter", "inc/dec", P.Pos(st.Pos()), "session start increments, session end decrements the connection gauge, unconditionally", "the connection gauge is not incremented exactly once per start and decremented exactly once per end")
@@ -134,7 +135,7 @@ func runPromGauge(c *core.Ctx) {
 	// helper: the set entry m[reqID][subID] for the message bound in the clause
 	entry := func(fn *ssa.Function, msgType string) string {
 		msgP := "p:" + fn.Params[2].Name()
-		return "recv.m[call:" + core.ModulePath + "/middleware/prometheus.getRequestID(p:" + fn.Params[1].Name() + ")][" + msgP + ".SubscriptionID]"
+		return "recv.m[REQID(p:" + fn.Params[1].Name() + ")][" + msgP + ".SubscriptionID]"
 	}
 	checkInc := func(fn *ssa.Function, msgType string) {
 		e := entry(fn, msgType)
@@ -147,13 +148,13 @@ func runPromGauge(c *core.Ctx) {
 			// same block: map insert of the entry; guard: entry absent
 			ins := false
 			for _, in := range call.Block().Instrs {
-				if mu, ok := in.(*ssa.MapUpdate); ok && an.PathOf(mu.Map)+"["+an.PathOf(mu.Key)+"]" == e {
+				if mu, ok := in.(*ssa.MapUpdate); ok && promPath(mu.Map)+"["+promPath(mu.Key)+"]" == e {
 					ins = true
 				}
 			}
 			absent := false
 			for _, g := range an.Guards(fn, call.Block()) {
-				if an.PathOf(g.V) == "ok("+e+")" && !g.True {
+				if promPath(g.V) == "ok("+e+")" && !g.True {
 					absent = true
 				}
 			}
@@ -173,14 +174,14 @@ func runPromGauge(c *core.Ctx) {
 			del := false
 			for _, in := range call.Block().Instrs {
 				if cc, ok := in.(*ssa.Call); ok {
-					if b, ok := cc.Call.Value.(*ssa.Builtin); ok && b.Name() == "delete" && an.PathOf(cc.Call.Args[0])+"["+an.PathOf(cc.Call.Args[1])+"]" == e {
+					if b, ok := cc.Call.Value.(*ssa.Builtin); ok && b.Name() == "delete" && promPath(cc.Call.Args[0])+"["+promPath(cc.Call.Args[1])+"]" == e {
 						del = true
 					}
 				}
 			}
 			present := false
 			for _, g := range an.Guards(fn, call.Block()) {
-				if an.PathOf(g.V) == "ok("+e+")" && g.True {
+				if promPath(g.V) == "ok("+e+")" && g.True {
 					present = true
 				}
 			}
@@ -194,15 +195,15 @@ func runPromGauge(c *core.Ctx) {
 	checkDec(sm, "ServerClosedMsg")
 	// session end: subtract what is still open, drop the set
 	{
-		sid := "call:" + core.ModulePath + "/middleware/prometheus.getRequestID(p:" + en.Params[1].Name() + ")"
+		sid := "REQID(p:" + en.Params[1].Name() + ")"
 		okSub, okDel := false, false
 		for _, call := range gaugeCalls(en, "Sub") {
-			if strings.Contains(an.PathOf(call.Call.Args[0]), "len(recv.m["+sid+"])") {
+			if strings.Contains(promPath(call.Call.Args[0]), "len(recv.m["+sid+"])") {
 				okSub = true
 			}
 		}
 		for _, d := range mapDeletesOn(en, "recv.m") {
-			if an.PathOf(d.Call.Args[1]) == sid {
+			if promPath(d.Call.Args[1]) == sid {
 				okDel = true
 			}
 		}
@@ -210,10 +211,10 @@ func runPromGauge(c *core.Ctx) {
 	}
 	// session start: a fresh set
 	{
-		sid := "call:" + core.ModulePath + "/middleware/prometheus.getRequestID(p:" + st.Params[1].Name() + ")"
+		sid := "REQID(p:" + st.Params[1].Name() + ")"
 		ok := false
 		for _, mu := range mapUpdatesOn(st, "recv.m") {
-			if an.PathOf(mu.Key) == sid && strings.HasPrefix(an.PathOf(mu.Value), "make:map") {
+			if promPath(mu.Key) == sid && strings.HasPrefix(promPath(mu.Value), "make:map") {
 				ok = true
 			}
 		}
@@ -248,7 +249,7 @@ func typeLabels(fn *ssa.Function, v ssa.Value, at *ssa.BasicBlock, msgPath strin
 		}
 		gp := ""
 		for i, a := range x.Call.Args {
-			if an.PathOf(a) == msgPath && i < len(g.Params) {
+			if promPath(a) == msgPath && i < len(g.Params) {
 				gp = "p:" + g.Params[i].Name()
 			}
 		}
@@ -329,9 +330,28 @@ func runPromLabel(c *core.Ctx) {
 			continue
 		}
 		elems, _ := an.VariadicElems(call.Call.Args[1])
-		if len(elems) == 1 && strings.Contains(an.PathOf(elems[0]), "strconv.FormatInt(p:"+fn.Params[2].Name()+".Event.Kind,const:10)") && assertedType(fn, call.Block(), "p:"+fn.Params[2].Name()) == "ClientEventMsg" {
+		if len(elems) == 1 && strings.Contains(promPath(elems[0]), "strconv.FormatInt(p:"+fn.Params[2].Name()+".Event.Kind,const:10)") && assertedType(fn, call.Block(), "p:"+fn.Params[2].Name()) == "ClientEventMsg" {
 			ok = true
 		}
 	}
 	c.Check(ok, nil, fname(c, fn), "label[kind]", P.Pos(fn.Pos()), "EVENT messages are counted under the decimal kind of their event", "the per-kind counter is not labelled with the decimal kind of the received event")
+}
+
+var (
+	reGetReqID1 = regexp.MustCompile(`call:[^(]*/middleware/prometheus\.getRequestID\(`)
+	reGetReqID2 = regexp.MustCompile(`call:invoke:context\.Context\.Value\(([^,()]*),global:requestIDKeyInstance\)`)
+	reSetReqID1 = regexp.MustCompile(`call:[^(]*/middleware/prometheus\.setRequestID\(`)
+	reSetReqID2 = regexp.MustCompile(`call:context\.WithValue\(([^,()]*),global:requestIDKeyInstance,`)
+)
+
+// promPath: access path with the two spellings of "the request id carried by
+// ctx" (the private helpers get/setRequestID, or their bodies written out)
+// folded into one.
+func promPath(v ssa.Value) string {
+	p := an.PathOf(v)
+	p = reGetReqID1.ReplaceAllString(p, "REQID(")
+	p = reGetReqID2.ReplaceAllString(p, "REQID($1)")
+	p = reSetReqID1.ReplaceAllString(p, "SETREQID(")
+	p = reSetReqID2.ReplaceAllString(p, "SETREQID($1,")
+	return p
 }
